@@ -227,6 +227,10 @@ def run(w, rep, tier):
         check_position_controllers(w, rep)
         check_flatness(w, rep)
         check_helpers(w, rep)
+    # the returned quaternion represents the constructed frame only if every selection of SO3Quat.from_Matrix is a right
+    # inverse of to_Matrix (rule shared with C07; an inverted thrust demand with a rearward heading reaches branch 3)
+    from .c07 import check_from_matrix
+    check_from_matrix(w, rep, R="C14.flow", RV="C14.flow", RS="C14.flow")
     rep.floor("C14.frame", 14)
     rep.floor("C14.SIB", 6)
     rep.undecided_clause("the degenerate branches (|T| < tol, thrust parallel to the heading): the fallbacks are not orthonormal in general (yB := xW is not perpendicular to zB)")
